@@ -101,6 +101,18 @@ def histories(draw):
         else:
             e = dict(ev="tick", dt=1)
         events.append(e)
+        if draw(st.integers(0, 7)) == 0:
+            # a burst that puts several entries into ONE wheel slot (delays congruent modulo 32), then touches one of them:
+            # chains inside a slot carry relative deltas, which is where removal and insertion arithmetic lives
+            base = draw(st.integers(1, 31))
+            owner = draw(st.integers(0, NOWNERS - 1))
+            ids = draw(st.lists(st.integers(0, NIDS - 1), min_size=3, max_size=4, unique=True))
+            turns = draw(st.permutations([0, 1, 2, 3]))
+            for j, i_ in enumerate(ids):
+                events.append(dict(ev="op", kind="co", id=i_, delay=base + 32 * turns[j], mode=draw(st.sampled_from(["name", "name", "fp"])), owner=owner))
+            events.append(dict(ev="op", kind=draw(st.sampled_from(["rm_handle", "rm_handle", "rm_name", "find_handle"])), id=draw(st.sampled_from(ids)), delay=0, mode="name", owner=owner))
+            if draw(st.booleans()):
+                events.append(dict(ev="op", kind=draw(st.sampled_from(["find_handle", "find_name", "rm_handle"])), id=draw(st.sampled_from(ids)), delay=0, mode="name", owner=owner))
     # always end with enough ticks to flush everything that is still pending
     events += [dict(ev="tick", dt=100), dict(ev="tick", dt=100), dict(ev="tick", dt=33)]
     return dict(events=events)
@@ -126,6 +138,7 @@ class Model:
         self.script = {}
         self.faulty = set()
         self.handle_of = {}      # (owner, id) -> latest Entry (the LPC side keeps the latest handle per id)
+        self.fuzzy = set()       # (owner, id) whose by-name removal was ambiguous (several identical entries): not judged individually any more
 
     def pending(self, owner, id_, mode=None):
         return [e for e in self.entries if e.owner == owner and e.id == id_ and e.state == "pending" and (mode is None or e.mode == mode)]
@@ -211,6 +224,8 @@ def evaluate_case(ctx, w, case):
             if kind == "rm_name" and cands:
                 # which of several same-named entries goes is unspecified: use the observation to pick it
                 pick = [c for c in cands if observed is None or c.due - m.now == observed] or cands
+                if len(pick) > 1:
+                    m.fuzzy.add((owner, id_))       # indistinguishable candidates: this (owner, id) is only checked collectively from now on
                 pick[0].state = "removed"; pick[0].removed_at = m.now; pick[0].removed_in_cb = in_cb
             if observed is not None and observed not in adm:
                 return "%s(cb%d) returned %r, admissible %r (now=%d)" % (kind, id_, observed, sorted(adm), m.now - T0)
@@ -219,6 +234,10 @@ def evaluate_case(ctx, w, case):
             ent = m.handle_of.get((owner, id_))
             if ent is None:
                 return None if observed in (None, -2) else "handle op without handle returned %r" % (observed,)
+            if (owner, id_) in m.fuzzy:
+                if kind == "rm_handle" and ent.state == "pending" and observed != -1:
+                    ent.state = "removed"; ent.removed_at = m.now; ent.removed_in_cb = in_cb
+                return None
             exp = ent.due - m.now if ent.state == "pending" else -1
             if kind == "rm_handle" and ent.state == "pending":
                 ent.state = "removed"; ent.removed_at = m.now; ent.removed_in_cb = in_cb
@@ -275,6 +294,9 @@ def evaluate_case(ctx, w, case):
                 exp_args = ("fp", 0) if c.mode == "fp" else ("arg%d" % c.id, c.id * 7)
                 got = [x for x in fired_impl.get((c.owner, m.now), []) if x[0] == c.id and (x[1], x[2]) == exp_args]
                 if not got:
+                    if (c.owner, c.id) in m.fuzzy:
+                        c.state = "removed"; c.removed_at = m.now; c.removed_in_cb = False
+                        continue
                     # allowed only if something in this very tick removed it (lenient same-tick rule is handled below)
                     c.state = "missed"
                     continue
@@ -311,6 +333,9 @@ def evaluate_case(ctx, w, case):
                     if extra:
                         fired_impl[(c.owner, m.now)].remove(extra[0])
     # anything the implementation fired that the model did not account for: early, duplicate, removed or ghost firing
+    # (owner, id) pairs whose removal was ambiguous: exactly as many firings as the model has entries is all that is asked
+    for (own, t), v in list(fired_impl.items()):
+        fired_impl[(own, t)] = [x for x in v if (own, x[0]) not in m.fuzzy or len([c for c in m.entries if c.owner == own and c.id == x[0] and c.state == "removed" and c.removed_at is not None]) == 0]
     left = {k: v for k, v in fired_impl.items() if v}
     if left:
         return ("unexpected-firing", "firings not explained by the reference scheduler (owner, time-T0): %r\nhistory %r" % (
